@@ -22,7 +22,11 @@ type Exec struct {
 	outcome  []string
 	nontriv  bool
 	Res      *rt.Result
+	cleanups []func()
 }
+
+// Cleanup registers fn to run (outside the scheduler) after this execution, however it ends.
+func (x *Exec) Cleanup(fn func()) { x.cleanups = append(x.cleanups, fn) }
 
 type Failure struct {
 	Clause    string `json:"clause"`
@@ -222,6 +226,10 @@ func (rp *Report) runOnceV(it *Item, prefix []int, fps []uint64, trace bool, vis
 	cfg := rt.Config{Prefix: prefix, PrefixFP: fps, MaxSteps: it.MaxSteps, MaxClock: it.MaxClock, Trace: trace, Visit: visit}
 	res := rt.Execute(cfg, func() { it.Body(x) })
 	x.Res = res
+	for _, fn := range x.cleanups {
+		fn()
+	}
+	x.cleanups = nil
 	if res.Diverged == "" && !res.StepCap && !res.ClockCap && !res.Pruned {
 		if it.Post != nil {
 			it.Post(x, res)
